@@ -307,6 +307,13 @@ Definition qobj_pow (self : dims) : outcome :=
   | _ => ORaise TypeError
   end.
 
+(* Qobj.inv : the raw matrix must be square; labels are exchanged
+   (`dims=[self._dims[1], self._dims[0]]`) *)
+Definition qobj_inv (self : dims) : outcome :=
+  if fst (dims_shape self) =? snd (dims_shape self) then
+    match dims_swap self with Ok d => ODims d | Err e => ORaise e end
+  else ORaise TypeError.
+
 (* Qobj.proj *)
 Definition qobj_proj (self : dims) : outcome :=
   match dims_type self with
